@@ -135,6 +135,13 @@ def programs(rng, tier_quick):
     add("pre_shared_sub", "status", shared_ops, ["+($0,$1)", "^($2,$3)", "-(#0,#1)"], pre=[rng.choice(["0c", "0"])])
     add("pre_partial", "status", shared_ops + ["cube:1:1:1:6:0:0", "tet:0.8:6.2:0.2:0.2"],
         ["+($0,$1)", "-($4,$5)", "^($2,$3)", "B+(#0,#1,#2)"], pre=[rng.choice(["0", "1", "0c", "1c"])])
+    # differences with several subtrahends collapsed into one Subtract node: the subtrahend union B u C is the expensive part,
+    # so most cancel points fall inside it (an empty/Cancelled merged subtrahend must not turn into "nothing to subtract")
+    sg = rng.choice([40, 48])
+    diff_ops = ["cube:2:2:2:-0.5:-0.5:-0.5", "sphere:1:%d:0.5:0.5:0.5" % sg, "sphere:1:%d:1.%s:0.5:0.6" % (sg, rng.choice("0123"))]
+    add("diff_chain", "status", diff_ops, ["-($0,$1,$2)"])
+    add("diff_union", "status", diff_ops, ["-($0,+($1,$2))"])
+    add("diff_batch", "status", diff_ops, ["B-($0,$1,$2)"])
     add("refine_leaf", "refine:3", ["sphere:1:48:0:0:0"], ["$0"])
     add("refine_tree", "refine:2", ["cube:1:1:1:0:0:0", "cube:1:1:1:%s:%s:0.5" % (off(), off())], ["+($0,$1)"])
     add("reflen", "reflen:0.2", ["cube:1:1:1:0:0:0", "tet:0.8:0.2:0.2:0.2"], ["-($0,$1)"])
